@@ -34,11 +34,15 @@ SCENARIOS.update({
                                "file touched under --check" if clireplay.changed(r, "ok.lua") else None)),
     "check-missing": ({"ok.lua": clireplay.FORMATTED}, ["--check", "ok.lua", "missing.lua"],
                       lambda r: ("exit status is %d, not 2, for a missing path" % r["rc"] if r["rc"] != 2 else None)),
+    "check-unreadable": ({"ok.lua": clireplay.FORMATTED, "bin.lua": b"\xff\xfe local x = 1\n"}, ["--check", "ok.lua", "bin.lua"],
+                         lambda r: ("exit status is %d, not 2, for a file that cannot be read as UTF-8" % r["rc"] if r["rc"] != 2 else None)),
+    "check-unreadable-and-diff": ({"u.lua": clireplay.UNFORMATTED, "bin.lua": b"\xff\xfe local x = 1\n"}, ["--check", "u.lua", "bin.lua"],
+                                  lambda r: ("exit status is %d, not 2" % r["rc"] if r["rc"] != 2 else None)),
     "write-broken": ({"bad.lua": clireplay.BROKEN}, ["bad.lua"],
                      lambda r: ("exit status is %d, not 2, for an unparseable file" % r["rc"] if r["rc"] != 2 else None)),
 })
 KIND2SCEN = dict(c14.KIND2SCEN)
-KIND2SCEN.update({"status-err": ["check-broken", "check-broken-and-diff", "check-missing", "write-broken"],
+KIND2SCEN.update({"status-err": ["check-broken", "check-broken-and-diff", "check-missing", "write-broken", "check-unreadable", "check-unreadable-and-diff"],
                   "status-diff": ["check-diff", "check-broken-and-diff"], "status-clean": ["check-clean"],
                   "diff-iff": ["check-diff", "check-clean"],
                   "any": list(SCENARIOS)})
